@@ -1,4 +1,7 @@
 mod term;
+mod c36;
+mod crash;
+mod c02;
 mod c34;
 mod c32;
 mod c39;
@@ -11,6 +14,7 @@ mod c01;
 fn main() {
     let args: Vec<String> = std::env::args().collect();
     if args.len() >= 6 && args[1] == "C32-child" { c32::child(&args[2..]); return; }
+    if args.len() >= 5 && args[1] == "CRASH-child" { crash::child(&args[2..]); return; }
     if args.len() < 5 {
         eprintln!("usage: mvharness <property> <seed> <n> <outfile> [extra...]");
         std::process::exit(2);
@@ -23,12 +27,14 @@ fn main() {
     match prop {
         "C31" => c31::run(seed, n, &mut out),
         "C05" => c05::run(seed, n, &mut out),
+        "C02" => c02::run(seed, n, _extra.first().map(|s| s.as_str()).unwrap_or("quick"), &mut out),
         "C01" => c01::run(seed, n, &mut out),
         "C06" => c01::run_c06(seed, n, &mut out),
         "C35" => c35::run(seed, n, &mut out),
         "C39" => c39::run(seed, n, &mut out),
         "C32" => c32::run(seed, n, _extra.first().map(|s| s.as_str()).unwrap_or("quick"), &mut out),
         "C34" => c34::run(seed, n, &mut out),
+        "C36" => c36::run(seed, n, &mut out),
         _ => { eprintln!("unknown property {}", prop); std::process::exit(2); }
     }
 }
